@@ -43,26 +43,34 @@ def rule_k1(ck, prog):
         return
     f = got[0]
     st = K.site(f, "total", 0)
-    rets = [n for n in f.nodes.values() if n.k == "ReturnStmt"]
-    bad = [r for r in rets if not r.ch or r.child(0).strip_all_casts().k != "StringLiteral"]
-    sw = [b for b in f.blocks.values() if b.term_kind == "SwitchStmt"]
-    has_default = False
-    for b in sw:
-        for si, s in enumerate(b.succs):
-            if s is not None and f.edge_label(b, si)[0] == "default":
-                has_default = True
-    # every path reaches a return
-    S = K.summaries(prog)
-    pg = S.pg(f)
-    reach = pg.reachable([pg.entry], blocked_edge=lambda e: e.kind == "elem" and e.node in rets)
+    # the description for every error code, by evaluating the function (a switch, an if-chain or a table with a search loop):
+    # over the regions its constants cut the int16 domain into (quick) or over all 65536 codes (thorough)
+    from sa import interp as I
+    lo, hi = -32768, 32767
+    dom = range(lo, hi + 1) if getattr(ck, "tier", "quick") == "thorough" else sorted(K.breakpoints(prog, f, lo, hi))
+    m = I.Machine(prog, max_steps=10 ** 9)
+    bad = None
+    n_ok = 0
+    texts = set()
+    for code in dom:
+        try:
+            v = m.run(f, [code])
+            t = I.as_text(v)
+        except I.Stuck as e:
+            ck.undecided("C18-K1", st, K.loc(f), "SCPI_ErrorTranslate(%d) cannot be evaluated: %s" % (code, e))
+            ck.analysed(f)
+            return
+        if t is None or t == "":
+            bad = (code, t)
+            break
+        texts.add(t)
+        n_ok += 1
     if bad:
-        ck.violated("C18-K1", st, K.loc(f, bad[0]), "a path returns `%s` instead of a description literal" % (bad[0].src if bad[0].ch else "nothing"))
-    elif not has_default:
-        ck.violated("C18-K1", st, K.loc(f), "no default arm: a code without a table entry has no fallback description")
-    elif pg.exit in reach:
-        ck.violated("C18-K1", st, K.loc(f), "a path leaves the function without returning a description")
+        ck.violated("C18-K1", st, K.loc(f), "error code %d has %s description: the response to the error query has no text and "
+                    "the length computation reads through it" % (bad[0], "a NULL" if bad[1] is None else "an empty"))
     else:
-        ck.holds("C18-K1", st, K.loc(f), "%d description literals incl. the default fallback" % len(rets))
+        ck.holds("C18-K1", st, K.loc(f), "%d codes evaluated (%s), %d distinct non-empty descriptions incl. the fallback"
+                 % (n_ok, "whole int16 domain" if len(dom) == 65536 else "every region between the constants the function compares with", len(texts)))
     ck.analysed(f)
 
 
